@@ -144,14 +144,22 @@ func (pass *DisjunctionInferMapping) inferDiscriminatorField(schema *ast.Schema,
 		existsInAllBranches := true
 		// a discriminator tells the branches apart: its value differs from one branch to the other
 		// (a constant shared by every branch, like `apiVersion: "v1"`, does not discriminate anything)
-		distinctValues := make(map[any]struct{}, len(allTypes))
+		// a discriminator value is a string: a constant of another type (nothing stops a schema
+		// from declaring a list as the constant of a string) does not tell anything apart
+		distinctValues := make(map[string]struct{}, len(allTypes))
 		for _, branchTypeName := range allTypes {
 			value, ok := candidates[branchTypeName][candidateFieldName]
 			if !ok {
 				existsInAllBranches = false
 				break
 			}
-			distinctValues[value] = struct{}{}
+
+			text, isString := value.(string)
+			if !isString {
+				existsInAllBranches = false
+				break
+			}
+			distinctValues[text] = struct{}{}
 		}
 
 		if existsInAllBranches && len(distinctValues) == len(allTypes) {
